@@ -443,6 +443,20 @@ pub fn ref_trader(t: &TraderObs, r: Option<&RefPos>) -> TraderObs {
     }
 }
 
+/// Margin a plain open / increase adds to the position: what the vault received in the transaction (the fees go to
+/// the pools, nothing is paid out on these paths), provided it is one of the two amounts the statements allow for -
+/// the margin named in the call or the margin re-derived from the floored notional (they differ by at most one unit
+/// per trade, with fractional leverage) - within a unit; otherwise the re-derived amount, so that a booking that
+/// follows neither shows up as a difference.
+fn margin_paid_in(w: &World, so: &StepObs, rederived: i128, named: i128) -> i128 {
+    let got = so.bal_delta(w.engine.as_str());
+    if (got - rederived).abs() <= 1 || (got - named).abs() <= 1 {
+        got
+    } else {
+        rederived
+    }
+}
+
 /// Advance the book by one observed step and compare the stored record of the acting trader with it.
 pub fn book_update(book: &RefBook, w: &World, so: &StepObs, out: &mut StepOut, prop: &str) -> RefBook {
     let mut b = book.clone();
@@ -477,7 +491,7 @@ pub fn book_update(book: &RefBook, w: &World, so: &StepObs, out: &mut StepOut, p
                     if long == *buy && sw.len() == 1 {
                         // increase
                         let base = sw[0].base as i128;
-                        let sm = n * d / *lev as i128;
+                        let sm = margin_paid_in(w, so, n * d / *lev as i128, *margin as i128);
                         b.insert(k.clone(), RefPos {
                             size: (r.size as i128 + if long { base } else { -base }) as i64,
                             margin: (r.margin as i128 + sm - owed).max(0) as i64,
@@ -533,7 +547,7 @@ pub fn book_update(book: &RefBook, w: &World, so: &StepObs, out: &mut StepOut, p
                         let base = sw[0].base as i128;
                         b.insert(k.clone(), RefPos {
                             size: (if *buy { base } else { -base }) as i64,
-                            margin: (n * d / *lev as i128) as i64,
+                            margin: margin_paid_in(w, so, n * d / *lev as i128, *margin as i128) as i64,
                             notional: n as i64,
                             cp: cum1,
                         });
